@@ -42,6 +42,8 @@ def scale_props(sc, given=True, status="unscaled", unsupported=False):
     for i, s in enumerate(sc):
         p = "NI_Scale[%d]" % i
         k = s["kind"]
+        if k == "Scaler":
+            continue                      # a DAQmx raw scaler: no NI_Scale[i]_Scale_Type property
         if unsupported:
             props.append([p + "_Scale_Type"] + _s("Bogus"))
             continue
@@ -137,9 +139,30 @@ def build_scaled_file(case, data, variant=0, with_zero_channel=True):
     return {"segs": segs, "_values": {C: vals}}
 
 
+def build_scaled_daqmx_file(case, data, variant=0):
+    """one DAQmx channel with two raw scalers (ids 0 and 1) in one raw buffer; scaler id holds data + 10 * id"""
+    sc = case["scales"]
+    tys = [TDMS_OF[sc[0]["ty"]], TDMS_OF[sc[1]["ty"]]]
+    sz = [enc.size_of(t) for t in tys]
+    pad = variant % 3
+    widths = [sz[0] + sz[1] + pad]
+    be = (variant // 3) % 2 == 1
+    forced = {C: {i: [np.array([v + 10 * i], dtype=enc.NPTYPE[tys[i]]).tobytes() for v in data] for i in (0, 1)}}
+    two = (variant // 6) % 2 == 1 and len(data) % 2 == 0
+    d = {"kind": "fc", "widths": widths, "scalers": [{"id": 0, "ty": tys[0], "buf": 0, "off": pad},
+                                                     {"id": 1, "ty": tys[1], "buf": 0, "off": pad + sz[0]}]}
+    seg = {"meta": True, "newlist": True, "be": be, "il": False, "k": 1,
+           "listed": [{"p": "/", "kind": "nodata", "props": []}, {"p": G, "kind": "nodata", "props": []},
+                      {"p": C, "kind": "full", "props": scale_props(sc, given=True)}],
+           "objs": [{"p": "/", "has": False, "n": 0, "ty": None}, {"p": G, "has": False, "n": 0, "ty": None},
+                    {"p": C, "has": True, "n": len(data), "ty": None, "daqmx": d}],
+           "daqmx_values": forced}
+    return {"segs": [seg]}
+
+
 def encode_with_values(fd, seed):
     """encode, forcing the channel values given in fd['_values'] (the encoder's generator is bypassed)"""
-    forced = fd.pop("_values")
+    forced = fd.pop("_values", {})
     orig = enc.value
     counters = {}
 
@@ -174,7 +197,12 @@ def replay_scaling_case(case):
     seed = case["seed"]
     h = zlib.crc32(repr(c).encode())
     variant = (h + seed) % 8
-    fd = build_scaled_file(c, rec["data"], variant, with_zero_channel=False)
+    daq = c["scales"][0]["kind"] == "Scaler"
+    if daq:
+        variant = (h + seed) % 12
+        fd = build_scaled_daqmx_file(c, rec["data"], variant)
+    else:
+        fd = build_scaled_file(c, rec["data"], variant, with_zero_channel=False)
     e = encode_with_values(fd, seed)
     fails = []
     n = 0
@@ -188,12 +216,19 @@ def replay_scaling_case(case):
         return s
 
     rawexp = [float(v) for v in rec["data"]]
+    if daq:
+        rawexp = {i: [float(v + 10 * i) for v in rec["data"]] for i in (0, 1)}
+
+    def rawnums(ch):
+        r = ch.read_data(scaled=False)
+        return {int(k): _nums(v) for k, v in r.items()} if isinstance(r, dict) else _nums(r)
     for mode in ("eager", "lazy"):
         try:
             f = TdmsFile.read(io.BytesIO(e.data)) if mode == "eager" else TdmsFile.open(io.BytesIO(e.data))
             ch = f["grp"]["c"]
-            before = _nums(ch.read_data(scaled=False))
-            raw_snapshot = ch.raw_data.tobytes() if mode == "eager" else None
+            before = rawnums(ch)
+            raw_snapshot = (b"".join(ch.raw_scaler_data[i].tobytes() for i in (0, 1)) if daq else ch.raw_data.tobytes()) \
+                if mode == "eager" else None
             n += 1
             if exp["judged"]:
                 got = _nums(ch[:])
@@ -216,10 +251,11 @@ def replay_scaling_case(case):
                         fails.append((sig("index-of-scaled"), dict(bundle, observed=one)))
             else:
                 ch[:]      # sensor scales / unrepresentable intermediates: evaluated but not judged on values
-            after = _nums(ch.read_data(scaled=False))
+            after = rawnums(ch)
             if before != rawexp or after != rawexp:
                 fails.append((sig("raw-data-changed", mode=mode), dict(bundle, before=before, after=after)))
-            if raw_snapshot is not None and ch.raw_data.tobytes() != raw_snapshot:
+            if raw_snapshot is not None and (b"".join(ch.raw_scaler_data[i].tobytes() for i in (0, 1)) if daq
+                                             else ch.raw_data.tobytes()) != raw_snapshot:
                 fails.append((sig("raw-data-changed", mode=mode, how="in-place"), dict(bundle)))
             if mode == "lazy":
                 f.close()
@@ -311,7 +347,12 @@ def replay_dtype_scaled_case(case):
     seed = case["seed"]
     h = zlib.crc32(repr(c).encode())
     variant = (h + seed) % 4
-    fd = build_scaled_file(c, rec["data"], variant, with_zero_channel=True)
+    daq = c["scales"][0]["kind"] == "Scaler"
+    if daq:
+        variant = (h + seed) % 12
+        fd = build_scaled_daqmx_file(c, rec["data"], variant)
+    else:
+        fd = build_scaled_file(c, rec["data"], variant, with_zero_channel=True)
     e = encode_with_values(fd, seed)
     fails = []
     kinds = sorted(set((s.get("sensor") or s["kind"]) for s in c["scales"])) if exp["scaled"] else []
@@ -319,7 +360,7 @@ def replay_dtype_scaled_case(case):
     n = 0
     for mode in ("eager", "lazy"):
         f = TdmsFile.read(io.BytesIO(e.data)) if mode == "eager" else TdmsFile.open(io.BytesIO(e.data))
-        for nm in ("c", "z"):
+        for nm in (("c",) if daq else ("c", "z")):
             ch = f["grp"][nm]
 
             def sig(opk, where, nm=nm, mode=mode):
